@@ -7,6 +7,8 @@ import AbraModel.Drv.Pratt
 import AbraModel.Drv.StrOps
 import AbraModel.Drv.SrcMap
 import AbraModel.Drv.Sched
+import AbraModel.Drv.PatMatrix
+import AbraModel.Drv.Sem
 /- Line-protocol model driver: one request per input line (`<component> <args…>`), one answer per line. -/
 open Abra.Drv
 
@@ -22,6 +24,8 @@ def dispatch (line : String) : String :=
   | "str" :: rest => handleStr rest
   | "srcmap" :: rest => handleSrcMap rest
   | "sched" :: rest => handleSched rest
+  | "pm" :: rest => handlePatMatrix rest
+  | "sem" :: rest => handleSem rest
   | _ => "bad-op"
 
 partial def loop (h : IO.FS.Stream) (out : IO.FS.Stream) : IO Unit := do
